@@ -419,7 +419,7 @@ def make_node(soup, spec, xml):
     if spec[0] == "S":
         return e["cls"][spec[1]](spec[2])
     _, mode, name, prefix, attrs, cbe, kids = spec
-    ad = {k: (list(v) if isinstance(v, list) else v) for k, v in attrs}
+    ad = {k: py_value(v) for k, v in attrs}
     if mode == "new_tag":
         t = soup.new_tag(name, prefix=prefix, attrs={k: v for k, v in ad.items() if v is not None})
     else:
@@ -430,6 +430,20 @@ def make_node(soup, spec, xml):
     for k in kids:
         t.append(make_node(soup, k, xml))
     return t
+
+
+def py_value(v):
+    """attribute value spec -> python object: str | None | list | {"py": "tuple"|"int"|"float", "v": …}"""
+    if isinstance(v, list):
+        return list(v)
+    if isinstance(v, dict):
+        if v["py"] == "tuple":
+            return tuple(v["v"])
+        if v["py"] == "int":
+            return int(v["v"])
+        if v["py"] == "float":
+            return float(v["v"])
+    return v
 
 
 def node_at(root, path):
@@ -467,7 +481,7 @@ def apply_op(soup, op, xml):
     elif kind == "insert_after":
         n.insert_after(make_node(soup, op[2], xml))
     elif kind == "setattr":
-        n[op[2]] = op[3]
+        n[op[2]] = py_value(op[3])
     elif kind == "delattr":
         if op[2] in n.attrs:
             del n[op[2]]
@@ -491,6 +505,14 @@ def build(recipe):
     for k in recipe["kids"]:
         soup.append(make_node(soup, k, xml))
     for op in recipe.get("ops", []):
+        if recipe.get("interleave"):
+            # render between the edits: anything a rendering caches must not survive the next edit
+            soup.decode()
+            soup.decode(formatter="html")
+            try:
+                node_at(soup, op[1]).decode(formatter=None)
+            except (IndexError, AttributeError):
+                pass
         apply_op(soup, op, xml)
     for path, v in recipe.get("known_xml", []):
         node_at(soup, path).known_xml = v
@@ -528,6 +550,10 @@ def rand_text(r, hostile=0.0, lo=1, hi=5, ws=0.15):
 
 def rand_attr_value(r, hostile):
     k = r.random()
+    if k < 0.03:
+        return {"py": "tuple", "v": [rand_text(r, hostile, 0, 2, 0.05) for _ in range(r.randint(0, 3))]}
+    if k < 0.05:
+        return {"py": r.choice(["int", "float"]), "v": r.choice([0, 1, 7, -3, 10 ** 6])}
     if k < 0.12:
         return None
     if k < 0.3:
@@ -731,7 +757,7 @@ def gen_api_recipe(r, hostile):
         else:
             kids.append(rand_tag_spec(r, 0, budget, hostile, xml))
     ops = rand_ops(r, kids, hostile, xml)
-    return {"kind": "api", "xml": xml, "kids": kids, "ops": ops}
+    return {"kind": "api", "xml": xml, "kids": kids, "ops": ops, "interleave": r.random() < 0.5}
 
 
 M_TEXT = ["&amp;", "&lt;", "&gt;", "&quot;", "&apos;", "&#65;", "&#x41;", "&nosuch;", "&amp", "&copy", "&lt x", "&#128;", "&#0;",
@@ -905,8 +931,14 @@ def render_checks(ctx, batch, recipe, root, st_root, stream):
             real = []
             for i in idxs:
                 el = els[i]
-                d = el.decode(formatter=f)
-                c = el.decode_contents(formatter=f)
+                try:
+                    d = el.decode(formatter=f)
+                    c = el.decode_contents(formatter=f)
+                except Exception as ex:
+                    ctx.violation(f"decode(formatter={f!r}) raised {type(ex).__name__}: {ex}",
+                                  case={"recipe": recipe, "element": i, "formatter": f, "op": "raises"},
+                                  expected="a rendering", observed=f"{type(ex).__name__}: {ex}", stream=stream)
+                    return None
                 real.append((i, d, c))
                 if f == "minimal":
                     if str(el) != d:
@@ -1144,6 +1176,9 @@ def check_tree(ctx, batch, recipe, stream, parsed, sub_elements=2, r=None):
         return
     ctx.count(f"{stream}:size:{min(size(st_root) // 5 * 5, 30)}+")
     els = render_checks(ctx, batch, recipe, root, st_root, stream)
+    if els is None:
+        ctx.case(None)
+        return
     oracle_direct(ctx, recipe, els, stream)
     reason = roundtrip_checks(ctx, batch, recipe, root, 0, root, stream, parsed)
     if r is not None and len(els) > 1:
@@ -1512,7 +1547,11 @@ def replay(path):
     f = c.get("formatter", "minimal")
     print("recipe:", ascii(json.dumps(c["recipe"]))[:1500])
     print("element:", c.get("element"), "formatter:", repr(f), "op:", c.get("op"))
-    text = el.decode(formatter=f)
+    try:
+        text = el.decode(formatter=f)
+    except Exception as ex:
+        print("decode raised:", type(ex).__name__, ex)
+        return 1
     print("rendered:", ascii(text))
     rc = 0
     if c.get("op") in ("roundtrip",):
@@ -1529,6 +1568,9 @@ def replay(path):
         print("third rendering:  ", ascii(text3))
         if got != want or text2 != text3:
             rc = 1
+    elif c.get("op") == "raises":
+        print("decode() returned normally")
+        rc = 0
     elif c.get("op") == "fmtarg":
         arg, tok = make_formatter_arg(c["formatter_desc"])
         try:
